@@ -97,12 +97,19 @@ Lemma c04_not_supplied c k a b :
   (c04_supplied c k = true -> a || b = true) -> a = false -> b = false -> c04_supplied c k = false.
 Proof. intros H -> ->. destruct (c04_supplied c k); auto. discriminate (H eq_refl). Qed.
 
+(* a fully repaired variant: the six other sites are `true`, the node site is repaired one way or
+   the other (or both) *)
+Local Ltac c04_fx_others fx A :=
+  destruct fx as [w a f2 f3 f4 f5 f6 f7]; unfold c04_all_fixed in A;
+  cbn [fx_node_wrap fx_node_after fx_face_deg fx_edge_deg fx_face_norm fx_edge_norm fx_edge_check fx_face_check] in A;
+  repeat (apply andb_prop in A; let B := fresh "B" in destruct A as [A B]); subst.
+
 Local Ltac c04_unf :=
   cbv beta iota zeta delta [c04_inv c04_state_ok c04_state_unit c04_step c04_get_node_ll c04_ensure_node_xyz
     c04_populate_centroids c04_set_range c04_set_ll c04_set_xyz c04_get_ll c04_get_xyz
     c04_the_ll c04_the_xyz c04_present st_nll st_nxyz st_ell st_exyz st_fll st_fxyz st_norm option_map
-    c04_fixed_all c04_fx_deg c04_fx_norm c04_fx_check fx_node_wrap fx_face_deg fx_edge_deg fx_face_norm fx_edge_norm
-    fx_edge_check fx_face_check] in *.
+    c04_fx_deg c04_fx_norm c04_fx_check fx_node_wrap fx_node_after fx_face_deg fx_edge_deg fx_face_norm
+    fx_edge_norm fx_edge_check fx_face_check] in *.
 
 (* solves the typing goals left after unfolding one getter *)
 Local Ltac c04_solve :=
@@ -126,11 +133,13 @@ Local Ltac c04_solve :=
            cbn [andb] in Iu; discriminate Iu
        end); try discriminate; try assumption; auto.
 
-Lemma c04_getter_inv c s o :
-  o <> ONormalize -> c04_inv c s -> c04_inv c (c04_step c04_fixed_all c s o).
+Lemma c04_getter_inv fx c s o :
+  c04_all_fixed fx = true ->
+  o <> ONormalize -> c04_inv c s -> c04_inv c (c04_step fx c s o).
 Proof.
-  intros Ho I.
-  destruct s as [nll nxyz ell exyz fll fxyz nrm].
+  intros A Ho I. c04_fx_others fx A. destruct w, a; try discriminate A; clear A.
+  all: destruct s as [nll nxyz ell exyz fll fxyz nrm].
+  all:
   destruct o as [k|k|]; [| |congruence]; destruct k;
     destruct nll as [nll|], nxyz as [nxyz|], ell as [ell|], exyz as [exyz|], fll as [fll|], fxyz as [fxyz|];
     c04_unf;
@@ -145,7 +154,7 @@ Qed.
 Local Ltac c04_unf_norm :=
   cbv beta iota zeta delta [c04_inv c04_state_ok c04_state_unit c04_step c04_normalize c04_check_normalization
     c04_set_norm c04_get_ll c04_get_xyz c04_present st_nll st_nxyz st_ell st_exyz st_fll st_fxyz st_norm
-    option_map negb c04_fixed_all c04_fx_deg c04_fx_norm c04_fx_check fx_node_wrap fx_face_deg fx_edge_deg
+    option_map negb c04_fx_deg c04_fx_norm c04_fx_check fx_node_wrap fx_node_after fx_face_deg fx_edge_deg
     fx_face_norm fx_edge_norm fx_edge_check fx_face_check] in *.
 
 Local Ltac c04_unit_facts :=
@@ -156,11 +165,12 @@ Local Ltac c04_unit_facts :=
       rewrite H in T; discriminate T
   end.
 
-Lemma c04_normalize_inv c s :
+Lemma c04_normalize_inv fx c s :
+  c04_all_fixed fx = true ->
   c04_inv c s ->
-  c04_inv c (c04_step c04_fixed_all c s ONormalize) /\ c04_state_unit c (c04_step c04_fixed_all c s ONormalize) = true.
+  c04_inv c (c04_step fx c s ONormalize) /\ c04_state_unit c (c04_step fx c s ONormalize) = true.
 Proof.
-  intros I.
+  intros A I. c04_fx_others fx A. clear A.
   destruct s as [nll nxyz ell exyz fll fxyz nrm].
   destruct nll as [nll|], nxyz as [nxyz|], ell as [ell|], exyz as [exyz|], fll as [fll|], fxyz as [fxyz|],
     nrm;
@@ -183,12 +193,12 @@ Proof.
     try reflexivity; try discriminate; try assumption; auto.
 Qed.
 
-Lemma c04_step_inv c s o : c04_inv c s -> c04_inv c (c04_step c04_fixed_all c s o).
+Lemma c04_step_inv fx c s o : c04_all_fixed fx = true -> c04_inv c s -> c04_inv c (c04_step fx c s o).
 Proof.
-  intros I. destruct o as [k|k|].
-  - apply c04_getter_inv; [discriminate|exact I].
-  - apply c04_getter_inv; [discriminate|exact I].
-  - apply c04_normalize_inv; exact I.
+  intros A I. destruct o as [k|k|].
+  - apply c04_getter_inv; [exact A|discriminate|exact I].
+  - apply c04_getter_inv; [exact A|discriminate|exact I].
+  - apply c04_normalize_inv; [exact A|exact I].
 Qed.
 
 Lemma c04_init_inv c : c04_wf_case c = true -> c04_inv c (c04_init c).
@@ -198,43 +208,45 @@ Proof.
     unfold c04_inv, c04_init; simpl; repeat split; intros; try reflexivity; try discriminate.
 Qed.
 
-Lemma c04_run_inv_from c ops : forall s, c04_inv c s -> c04_inv c (fold_left (c04_step c04_fixed_all c) ops s).
+Lemma c04_run_inv_from fx c ops : c04_all_fixed fx = true ->
+  forall s, c04_inv c s -> c04_inv c (fold_left (c04_step fx c) ops s).
 Proof.
-  induction ops as [|o ops IH]; intros s I; simpl; [exact I|].
-  apply IH. apply c04_step_inv. exact I.
+  intros A. induction ops as [|o ops IH]; intros s I; simpl; [exact I|].
+  apply IH. apply c04_step_inv; [exact A|exact I].
 Qed.
 
 (* history theorem, symbolic form: whatever the source supplies and whatever is accessed in
    whatever order, every coordinate group the repaired Grid holds is well-united *)
-Lemma c04_provenance_sym c ops :
-  c04_wf_case c = true -> c04_state_ok c (c04_run c04_fixed_all c ops) = true.
+Lemma c04_provenance_sym fx c ops :
+  c04_all_fixed fx = true -> c04_wf_case c = true -> c04_state_ok c (c04_run fx c ops) = true.
 Proof.
-  intros W. unfold c04_run.
-  destruct (c04_run_inv_from c ops (c04_init c) (c04_init_inv c W)) as (H & _). exact H.
+  intros A W. unfold c04_run.
+  destruct (c04_run_inv_from fx c ops A (c04_init c) (c04_init_inv c W)) as (H & _). exact H.
 Qed.
 
 (* ... and right after normalize_cartesian_coordinates all Cartesian groups are unit *)
-Lemma c04_normalize_unit_sym c ops :
-  c04_wf_case c = true -> c04_state_unit c (c04_run c04_fixed_all c (ops ++ [ONormalize])) = true.
+Lemma c04_normalize_unit_sym fx c ops :
+  c04_all_fixed fx = true -> c04_wf_case c = true ->
+  c04_state_unit c (c04_run fx c (ops ++ [ONormalize])) = true.
 Proof.
-  intros W. unfold c04_run. rewrite fold_left_app. simpl.
-  apply c04_normalize_inv. apply c04_run_inv_from. apply c04_init_inv; exact W.
+  intros A W. unfold c04_run. rewrite fold_left_app. simpl.
+  apply c04_normalize_inv; [exact A|]. apply c04_run_inv_from; [exact A|]. apply c04_init_inv; exact W.
 Qed.
 
 (* every intermediate state of the trace (what each access reported) is well-united as well *)
-Lemma c04_trace_ok c ops : forall s, c04_inv c s ->
-  Forall (fun s' => c04_state_ok c s' = true) (c04_trace c04_fixed_all c s ops).
+Lemma c04_trace_ok fx c ops : c04_all_fixed fx = true -> forall s, c04_inv c s ->
+  Forall (fun s' => c04_state_ok c s' = true) (c04_trace fx c s ops).
 Proof.
-  induction ops as [|o ops IH]; intros s I; simpl; constructor.
-  - apply (c04_step_inv c s o I).
-  - apply IH. apply c04_step_inv; exact I.
+  intros A. induction ops as [|o ops IH]; intros s I; simpl; constructor.
+  - apply (c04_step_inv fx c s o A I).
+  - apply IH. apply c04_step_inv; [exact A|exact I].
 Qed.
 
 
-Lemma c04_every_report_sym c ops :
-  c04_wf_case c = true ->
-  Forall (fun s => c04_state_ok c s = true) (c04_trace c04_fixed_all c (c04_init c) ops).
-Proof. intros W. apply c04_trace_ok. apply c04_init_inv. exact W. Qed.
+Lemma c04_every_report_sym fx c ops :
+  c04_all_fixed fx = true -> c04_wf_case c = true ->
+  Forall (fun s => c04_state_ok c s = true) (c04_trace fx c (c04_init c) ops).
+Proof. intros A W. apply c04_trace_ok; [exact A|]. apply c04_init_inv. exact W. Qed.
 
 (* the code as found: witnesses.  Each of the seven sites alone breaks the property, whatever the
    state of the other six *)
@@ -252,41 +264,34 @@ Definition c04_bad (fx : c04_fixes) (c : c04_case) (ops : list c04_op) : Prop :=
    c04_state_unit c (c04_run fx c (ops ++ [ONormalize])) = false).
 
 Local Ltac c04_witness :=
-  intros [a b c0 d e f g] H; simpl in H; subst;
-  match goal with
-  | |- c04_bad {| fx_node_wrap := ?a; fx_face_deg := ?b; fx_edge_deg := ?c; fx_face_norm := ?d;
-                  fx_edge_norm := ?e; fx_edge_check := ?f; fx_face_check := ?g |} _ _ =>
-      repeat match goal with x : bool |- _ => destruct x end
-  end;
+  intros fx; destruct fx as [w a f2 f3 f4 f5 f6 f7];
+  cbn [fx_node_wrap fx_node_after fx_face_deg fx_edge_deg fx_face_norm fx_edge_norm fx_edge_check fx_face_check];
+  intros; subst;
+  repeat match goal with x : bool |- _ => destruct x end;
   (split; [reflexivity|]; first [left; vm_compute; reflexivity | right; vm_compute; reflexivity]).
 
-(* node_lon of a Cartesian-only grid: degrees in [0,360) (no wrap after the derivation) *)
-Lemma c04_node_lon_refuted fx : fx_node_wrap fx = false -> c04_bad fx c04_case_xyz_nodes [OGetLL KNode].
-Proof. revert fx. c04_witness. Qed.
+(* node_lon of a Cartesian-only grid: degrees in [0,360) (neither repair of the node site present) *)
+Lemma c04_node_lon_refuted : forall fx, fx_node_wrap fx = false -> fx_node_after fx = false ->
+  c04_bad fx c04_case_xyz_nodes [OGetLL KNode].
+Proof. c04_witness. Qed.
 
 (* face_x / edge_x of a grid whose source supplies the centres as lon/lat: degrees read as radians *)
-Lemma c04_face_deg_refuted fx : fx_face_deg fx = false -> c04_bad fx c04_case_ll_faces [OGetXYZ KFace].
-Proof. revert fx. c04_witness. Qed.
-Lemma c04_edge_deg_refuted fx : fx_edge_deg fx = false -> c04_bad fx c04_case_ll_edges [OGetXYZ KEdge].
-Proof. revert fx. c04_witness. Qed.
+Lemma c04_face_deg_refuted : forall fx, fx_face_deg fx = false -> c04_bad fx c04_case_ll_faces [OGetXYZ KFace].
+Proof. c04_witness. Qed.
+Lemma c04_edge_deg_refuted : forall fx, fx_edge_deg fx = false -> c04_bad fx c04_case_ll_edges [OGetXYZ KEdge].
+Proof. c04_witness. Qed.
 
 (* face_lat / edge_lat from scaled Cartesian centres: arcsin of an un-normalised z *)
-Lemma c04_face_norm_refuted fx : fx_face_norm fx = false -> c04_bad fx c04_case_scaled_faces [OGetLL KFace].
-Proof. revert fx. c04_witness. Qed.
-Lemma c04_edge_norm_refuted fx : fx_edge_norm fx = false -> c04_bad fx c04_case_scaled_edges [OGetLL KEdge].
-Proof. revert fx. c04_witness. Qed.
+Lemma c04_face_norm_refuted : forall fx, fx_face_norm fx = false -> c04_bad fx c04_case_scaled_faces [OGetLL KFace].
+Proof. c04_witness. Qed.
+Lemma c04_edge_norm_refuted : forall fx, fx_edge_norm fx = false -> c04_bad fx c04_case_scaled_edges [OGetLL KEdge].
+Proof. c04_witness. Qed.
 
 (* normalize_cartesian_coordinates leaves scaled centres as they are when the nodes are unit *)
-Lemma c04_face_check_refuted fx : fx_face_check fx = false -> c04_bad fx c04_case_scaled_faces [].
-Proof. revert fx. c04_witness. Qed.
-Lemma c04_edge_check_refuted fx : fx_edge_check fx = false -> c04_bad fx c04_case_scaled_edges [].
-Proof. revert fx. c04_witness. Qed.
-
-Lemma c04_all_fixed_eq fx : c04_all_fixed fx = true -> fx = c04_fixed_all.
-Proof.
-  destruct fx as [a b c0 d e f g]. unfold c04_all_fixed; simpl. intros H.
-  repeat (apply andb_prop in H; destruct H as [H ?]). subst. reflexivity.
-Qed.
+Lemma c04_face_check_refuted : forall fx, fx_face_check fx = false -> c04_bad fx c04_case_scaled_faces [].
+Proof. c04_witness. Qed.
+Lemma c04_edge_check_refuted : forall fx, fx_edge_check fx = false -> c04_bad fx c04_case_scaled_edges [].
+Proof. c04_witness. Qed.
 
 (* the verdict for any variant of the source: with all seven sites repaired the property holds for
    every source and history; with any site as found it fails on a concrete source and history *)
@@ -300,17 +305,18 @@ Definition c04_verdict (fx : c04_fixes) : Prop :=
 Lemma c04_verdict_all fx : c04_verdict fx.
 Proof.
   unfold c04_verdict. destruct (c04_all_fixed fx) eqn:A.
-  - apply c04_all_fixed_eq in A. subst fx. intros c ops W.
-    split; [apply c04_provenance_sym; exact W|apply c04_normalize_unit_sym; exact W].
+  - intros c ops W.
+    split; [apply c04_provenance_sym; assumption|apply c04_normalize_unit_sym; assumption].
   - unfold c04_all_fixed in A.
-    destruct (fx_node_wrap fx) eqn:F1; [|eexists; eexists; apply (c04_node_lon_refuted fx F1)].
-    destruct (fx_face_deg fx) eqn:F2; [|eexists; eexists; apply (c04_face_deg_refuted fx F2)].
-    destruct (fx_edge_deg fx) eqn:F3; [|eexists; eexists; apply (c04_edge_deg_refuted fx F3)].
-    destruct (fx_face_norm fx) eqn:F4; [|eexists; eexists; apply (c04_face_norm_refuted fx F4)].
-    destruct (fx_edge_norm fx) eqn:F5; [|eexists; eexists; apply (c04_edge_norm_refuted fx F5)].
-    destruct (fx_edge_check fx) eqn:F6; [|eexists; eexists; apply (c04_edge_check_refuted fx F6)].
-    destruct (fx_face_check fx) eqn:F7; [|eexists; eexists; apply (c04_face_check_refuted fx F7)].
-    discriminate A.
+    destruct (fx_node_wrap fx) eqn:F1; destruct (fx_node_after fx) eqn:F1';
+      try (eexists; eexists; apply (c04_node_lon_refuted fx F1 F1')).
+    all: destruct (fx_face_deg fx) eqn:F2; [|eexists; eexists; apply (c04_face_deg_refuted fx F2)].
+    all: destruct (fx_edge_deg fx) eqn:F3; [|eexists; eexists; apply (c04_edge_deg_refuted fx F3)].
+    all: destruct (fx_face_norm fx) eqn:F4; [|eexists; eexists; apply (c04_face_norm_refuted fx F4)].
+    all: destruct (fx_edge_norm fx) eqn:F5; [|eexists; eexists; apply (c04_edge_norm_refuted fx F5)].
+    all: destruct (fx_edge_check fx) eqn:F6; [|eexists; eexists; apply (c04_edge_check_refuted fx F6)].
+    all: destruct (fx_face_check fx) eqn:F7; [|eexists; eexists; apply (c04_face_check_refuted fx F7)].
+    all: discriminate A.
 Qed.
 
 (* the source as found (all seven sites): the property fails *)
@@ -843,18 +849,18 @@ Qed.
    every element, lon/lat in the standard ranges that denote exactly the element's direction,
    and Cartesian coordinates that are a positive multiple of it — of unit length whenever the
    source did not supply them. *)
-Lemma c04_provenance_sem c en ops :
-  c04_wf_case c = true -> c04_env_ok c en ->
-  (forall k l, c04_get_ll (c04_run c04_fixed_all c ops) k = Some l -> forall i, (i < en_count en k)%nat ->
+Lemma c04_provenance_sem fx c en ops :
+  c04_all_fixed fx = true -> c04_wf_case c = true -> c04_env_ok c en ->
+  (forall k l, c04_get_ll (c04_run fx c ops) k = Some l -> forall i, (i < en_count en k)%nat ->
       -180 <= fst (c04_sem_ll en l i) <= 180 /\ -90 <= snd (c04_sem_ll en l i) <= 90 /\
       c04_ll2xyz (c04_map_ll c04_deg2rad (c04_sem_ll en l i)) = en_dir en k i) /\
-  (forall k x, c04_get_xyz (c04_run c04_fixed_all c ops) k = Some x -> forall i, (i < en_count en k)%nat ->
+  (forall k x, c04_get_xyz (c04_run fx c ops) k = Some x -> forall i, (i < en_count en k)%nat ->
       exists r, 0 < r /\ c04_sem_xyz en x i = c04_scale r (en_dir en k i) /\
                 (c04_has_xyz (c04_prov_of c k) = false -> r = 1)).
 Proof.
-  intros W OK. pose proof (c04_provenance_sym c ops W) as S.
+  intros A W OK. pose proof (c04_provenance_sym fx c ops A W) as S.
   destruct (c04_ty_sound c en OK) as [SL SX].
-  set (s := c04_run c04_fixed_all c ops) in *. unfold c04_state_ok in S.
+  set (s := c04_run fx c ops) in *. unfold c04_state_ok in S.
   repeat (apply andb_prop in S; destruct S as [S ?]).
   split.
   - intros k l G i Hi.
